@@ -73,6 +73,54 @@ class RbxModels(Models):
                 w.fresh_uids.append(uid)
                 return Ok(uid)
 
+    def register_bitflags(self, prog):
+        """bitflags!-generated types (FaceFlags, AxisFlags): contract model with the mask taken from the macro invocation in
+        /repo's source (the generated impls live in the bitflags crate's macro and are not interpreted)."""
+        import glob, os
+        from .. import common as C
+        M = self
+        masks = {}
+        for crate in prog.crates:
+            for path in glob.glob(os.path.join(C.REPO, crate, 'src', '**', '*.rs'), recursive=True):
+                try:
+                    text = open(path).read()
+                except OSError:
+                    continue
+                for m in re.finditer(r'bitflags::bitflags!\s*\{\s*(?:pub\s+)?struct\s+(\w+)\s*:\s*(\w+)\s*\{(.*?)\}\s*\}', text, re.S):
+                    consts = [int(x, 0) for x in re.findall(r'const\s+\w+\s*=\s*(0x[0-9a-fA-F]+|\d+)\s*;', m.group(3))]
+                    mask = 0
+                    for c in consts:
+                        mask |= c
+                    masks[m.group(1)] = (mask, m.group(2))
+                    prog.structs.setdefault(m.group(1), ['bits'])
+        self.bitflag_masks = masks
+        if not masks:
+            return
+
+        @M.path(list(masks), ['from_bits', 'from_bits_truncate', 'bits', 'contains', 'empty', 'all', 'is_empty'], override=True)
+        def _bitflags(ex, args, info):
+            mask, ty = masks[info.self_ty_head]
+            w = INT_W[ty]
+            mk = lambda t: Struct([Sc(z3.simplify(t), ty)], info.self_ty_head)
+            mth = info.method
+            if mth == 'empty':
+                return mk(z3.BitVecVal(0, w))
+            if mth == 'all':
+                return mk(z3.BitVecVal(mask, w))
+            if mth == 'from_bits':
+                b = args[0]
+                ok = (b.t & z3.BitVecVal(~mask & ((1 << w) - 1), w)) == 0
+                return Enum('Option', None, alts=[(z3.simplify(ok), 'Some', [mk(b.t)]), (z3.simplify(z3.Not(ok)), 'None', [])])
+            if mth == 'from_bits_truncate':
+                return mk(args[0].t & z3.BitVecVal(mask, w))
+            me = deref(args[0])
+            if mth == 'bits':
+                return me.f[0]
+            if mth == 'is_empty':
+                return Sc(z3.simplify(me.f[0].t == 0), 'bool')
+            other = deref(args[1])
+            return Sc(z3.simplify((me.f[0].t & other.f[0].t) == other.f[0].t), 'bool')
+
     def to_variant(self, ex, v):
         if isinstance(v, Enum) and v.ename == 'Variant':
             return v
